@@ -69,3 +69,77 @@ def watch(specs):
 
 def counts():
     return {spec: (-1 if code is None else _counts.get(code, 0)) for spec, code in _names.items()}
+
+
+# ----------------------------------------------------------------------------------------------------------------------
+# statement coverage of the anchored files (what the workload actually drove), via sys.monitoring LINE events that
+# disable themselves after the first hit (cost: one callback per distinct line).  Evidence only - never a verdict.
+# ----------------------------------------------------------------------------------------------------------------------
+_COVER_TOOL = None
+_cover_files = {}
+_cover_hits = {}
+
+
+def cover_start(repo_root, rel_files):
+    """Record executed lines of the given files (paths relative to the repository root)."""
+    global _COVER_TOOL
+    import os
+
+    mon = sys.monitoring
+    for rel in rel_files:
+        _cover_files[os.path.join(repo_root, rel)] = rel
+        _cover_hits.setdefault(rel, set())
+    if _COVER_TOOL is not None or not _cover_files:
+        return
+    _COVER_TOOL = mon.COVERAGE_ID
+    try:
+        mon.use_tool_id(_COVER_TOOL, "bcv-cover")
+    except ValueError:
+        _COVER_TOOL = None
+        return
+
+    def on_line(code, line):
+        rel = _cover_files.get(code.co_filename)
+        if rel is not None:
+            _cover_hits[rel].add(line)
+        return mon.DISABLE
+
+    def on_start(code, offset):
+        # first entry of a code object: switch line events on for it if it belongs to an anchored file; either way this
+        # start event is never needed again
+        if code.co_filename in _cover_files:
+            try:
+                mon.set_local_events(_COVER_TOOL, code, mon.events.LINE)
+            except ValueError:
+                pass
+        return mon.DISABLE
+
+    mon.register_callback(_COVER_TOOL, mon.events.LINE, on_line)
+    mon.register_callback(_COVER_TOOL, mon.events.PY_START, on_start)
+    mon.set_events(_COVER_TOOL, mon.events.PY_START)
+
+
+def cover_result():
+    return {rel: sorted(lines) for rel, lines in _cover_hits.items()}
+
+
+def executable_lines(path):
+    """{qualname: set(lines)} of every function / class body / module body of a source file (from compiled code objects)."""
+    with open(path) as fh:
+        src = fh.read()
+    top = compile(src, path, "exec", dont_inherit=True)
+    out = {}
+
+    def walk(code, prefix):
+        name = prefix if code.co_name == "<module>" else (f"{prefix}.{code.co_name}" if prefix else code.co_name)
+        lines = {ln for _, _, ln in code.co_lines() if ln is not None and ln > 0}
+        # the 'def' line itself executes at definition time (in the enclosing body), not when the function runs
+        if code.co_name != "<module>":
+            lines.discard(code.co_firstlineno)
+        out.setdefault(name or "<module>", set()).update(lines)
+        for c in code.co_consts:
+            if hasattr(c, "co_lines"):
+                walk(c, "" if code.co_name == "<module>" else name)
+
+    walk(top, "")
+    return out
